@@ -230,6 +230,15 @@ def termination_scenarios():
                             ("method-of-a-nil-pointer-then-a-first-time-method-call", scall(call("method", "NilP.Mark", [("const", kint(1))])), [hh(), {"name": "NilP", "kind": "nilptr"}], "IdU8"),
                             ("three-level-value-through-a-missing-field-then-a-first-time-method-call", assign(("var", "x"), "=", ("math", matom(acall(call("three", "h.Nope.EchoN", [("const", kint(1))]))))), [hh()], "Id64")):
         out.append((nm, nxt(m), inj, {"class": "error", m: 1}, [("p0", None, 50, block([bad]))]))
+    # a rule that binds a local and then PANICS at rule level (a number as a condition; ! applied to a number; an index out of range in
+    # a condition): the fault is that rule's error — and a later rule that reads the same name, which it never defined, fails with
+    # its own error (a missing name) instead of finding a value: it does not reach its Mark
+    seq3 = lambda: inj_seq("sq", "i64", [tv_int("i64", 1), tv_int("i64", 2)])
+    for nm, cond, inj in (("number-as-condition", emath(mvar("leaked")), []), ("not-of-a-number", eatom(True, var("leaked")), []),
+                          ("index-out-of-range-in-a-condition", mk_ecmp("==", emath(matom(amap(mapvar("sq", ("var", "leaked"))))), emath(mint(1))), [seq3()])):
+        pre = [("p0", None, 50, block([assign(("var", "leaked"), "=", ("math", mint(7))), sif(cond, block([]))]))]
+        reader = block([assign(("var", "seen"), "=", ("math", mk_mbin("+", mvar("leaked"), mint(1)))), scall(call("func", "Mark", [("const", kint(5))]))], ("expr", emath(mvar("seen"))))
+        out.append(("a-missing-name-after-a-rule-level-fault-of-a-rule-that-bound-it-" + nm, reader, inj + [inj_func("Mark")], {"class": "error", "Mark": 0}, pre))
     return out
 
 
